@@ -39,7 +39,7 @@ def extract_fgraph(spec):
     from spox._public import _temporary_renames
 
     try:
-        inputs, outputs = L.realise(spec)
+        inputs, outputs = CF.realise(spec) if spec.get("kind") == "cf" else L.realise(spec)
     except Exception as e:  # noqa: BLE001 - the program itself is rejected at construction time
         return None, ("skip", f"realise: {type(e).__name__}"), []
     fps: dict[bytes, int] = {}
@@ -357,6 +357,13 @@ def _case_worker(task):
         case = CF.HAND_CASES[k] if k < len(CF.HAND_CASES) else CF.gen_case(rng)
         r = {"mode": "cf", "case": case}
         r.update(CF.judge(case, rng))
+        if k % 3 == 0:  # the collection / de-duplication correspondence on a third of them
+            try:
+                with warnings.catch_warnings():
+                    warnings.simplefilter("ignore")
+                    r["fg"], r["real"], r["imports"] = extract_fgraph(case)
+            except Exception as e:  # noqa: BLE001
+                r["fg"], r["real"], r["imports"] = None, ("unobservable", f"{type(e).__name__}: {e}"), []
         return r
     with warnings.catch_warnings():
         warnings.simplefilter("ignore")
@@ -614,6 +621,9 @@ def run(ck: core.Check):
     cf_results = [r for r in results if r["mode"] == "cf"]
     results = [r for r in results if r["mode"] != "cf"]
     judge_cf(ck, cf_results)
+    # (their structure also goes through the collection / imports correspondences below)
+    cf_collect = [{"mode": "collect", "spec": r["case"], "fg": r["fg"], "real": r["real"], "imports": r["imports"],
+                   "status": "cf", "stats": None, "fails": []} for r in cf_results if "fg" in r]
     unobs = [r for r in results if r["mode"] == "collect" and r.get("real") and r["real"][0] == "unobservable"]
     if unobs:
         ck.broken("correspondence", "C14 function collection not observable (real Builder/Function internals changed?)",
@@ -667,7 +677,7 @@ def run(ck: core.Check):
 
     if drv is not None:
         # ---- (a) collection correspondence
-        col = [r for r in results if r["mode"] == "collect" and r.get("fg") is not None
+        col = [r for r in results + cf_collect if r["mode"] == "collect" and r.get("fg") is not None
                and r["real"][0] not in ("skip", "unobservable")]
         outs = drv.ask_many("C14", [{"k": "collect", "g": r["fg"]} for r in col])
         mism = 0
@@ -691,7 +701,7 @@ def run(ck: core.Check):
         cst["mismatches"] = mism
         ck.cov["collection"] = cst
         # ---- (b) imports
-        recs = [rec for r in results if r["mode"] == "collect" for rec in (r.get("imports") or [])]
+        recs = [rec for r in results + cf_collect if r["mode"] == "collect" for rec in (r.get("imports") or [])]
         seen, uniq = set(), []
         for rec in recs:
             k = json.dumps(rec, sort_keys=True)
